@@ -218,7 +218,7 @@ def forwards(rep, res, entry, callee_names, need, rule="R-FORWARD", exact=True):
                 v = bound["**"]
             ok = v is not None and origin in v.flat().data
             if ok and exact:
-                extra = {o for o in v.flat().data if o != origin and not o.startswith(("sol#", "par#", "xsample@"))}
+                extra = {o for o in v.flat().data if o != origin and not o.startswith(("sol#", "par#", "xsample@", "pick@"))}
                 if extra:
                     ok = False
             rep.check(rule, f"{origin} → {fn.name}({p}=)", ok, where=ev.loc, construct=f"{fn.name}(… {p}= …) in {ev.fn.name}",
